@@ -210,6 +210,11 @@ theorem ns_evCompare (op : COp) (a b : Expr) (c : ICtx) (D : Env) : NS (evCompar
 theorem ns_step (e : Expr) (c : ICtx) (D : Env) : NS (step cfg ev e c D) := by
   cases e with
   | lit n => exact NS.ret _
+  | dlit n => exact NS.ret _
+  | elit n => exact NS.ret _
+  | inst t e =>
+    simp only [step]
+    exact NS.bnd (hev _ _ _) (fun _ => NS.ret _)
   | tt => exact NS.ret _
   | ff => exact NS.ret _
   | emp => exact NS.ret _
